@@ -2,1133 +2,64 @@
 import ImathVerif.Basic.Types
 import ImathVerif.Gen.Leaf
 set_option linter.unusedVariables false
-set_option maxRecDepth 8192
 namespace ImathVerif.Gen
 open ImathVerif
 
 /-- extracted from the C++ template at T = Sym; 9 path(s) -/
 def C10.extractQuat {α : Type} [Add α] [Sub α] [Mul α] [Div α] [LT α] [DecidableLT α] [DecidableEq α] [OfNat α 0] [OfNat α 1] [OfNat α 2] (sqrt : α → α) (mat : M44 α) : (Quat α) :=
-  let t2906 := (mat.x00 + mat.x11)
-  let t2907 := (t2906 + mat.x22)
-  let t2909 := (sqrt (t2907 + (1 : α)))
-  let t2912 := (((1 : α) / (2 : α)) / t2909)
-  let t2913 := (mat.x12 - mat.x21)
-  let t2915 := (mat.x20 - mat.x02)
-  let t2917 := (mat.x01 - mat.x10)
-  let t2921 := (sqrt ((mat.x22 - t2906) + (1 : α)))
-  let t2922 := (t2921 * ((1 : α) / (2 : α)))
-  let t2923 := (t2917 * t2921)
-  let t2924 := (mat.x20 + mat.x02)
-  let t2925 := (t2924 * t2921)
-  let t2926 := (mat.x21 + mat.x12)
-  let t2927 := (t2926 * t2921)
-  let t2928 := (((1 : α) / (2 : α)) / t2921)
-  let t2929 := (t2917 * t2928)
-  let t2930 := (t2924 * t2928)
-  let t2931 := (t2926 * t2928)
-  let t2935 := (sqrt ((mat.x11 - (mat.x22 + mat.x00)) + (1 : α)))
-  let t2936 := (t2935 * ((1 : α) / (2 : α)))
-  let t2938 := (mat.x12 + mat.x21)
-  let t2940 := (mat.x10 + mat.x01)
-  let t2942 := (((1 : α) / (2 : α)) / t2935)
-  let t2949 := (sqrt ((mat.x00 - (mat.x11 + mat.x22)) + (1 : α)))
-  let t2950 := (t2949 * ((1 : α) / (2 : α)))
-  let t2952 := (mat.x01 + mat.x10)
-  let t2954 := (mat.x02 + mat.x20)
-  let t2956 := (((1 : α) / (2 : α)) / t2949)
-  if (0 : α) < t2907 then
-    ⟨(t2909 / (2 : α)), ⟨(t2913 * t2912), (t2915 * t2912), (t2917 * t2912)⟩⟩
+  let t2009 := (mat.x00 + mat.x11)
+  let t2010 := (t2009 + mat.x22)
+  let t2012 := (sqrt (t2010 + (1 : α)))
+  let t2015 := (((1 : α) / (2 : α)) / t2012)
+  let t2016 := (mat.x12 - mat.x21)
+  let t2018 := (mat.x20 - mat.x02)
+  let t2020 := (mat.x01 - mat.x10)
+  let t2024 := (sqrt ((mat.x22 - t2009) + (1 : α)))
+  let t2025 := (t2024 * ((1 : α) / (2 : α)))
+  let t2026 := (t2020 * t2024)
+  let t2027 := (mat.x20 + mat.x02)
+  let t2028 := (t2027 * t2024)
+  let t2029 := (mat.x21 + mat.x12)
+  let t2030 := (t2029 * t2024)
+  let t2031 := (((1 : α) / (2 : α)) / t2024)
+  let t2032 := (t2020 * t2031)
+  let t2033 := (t2027 * t2031)
+  let t2034 := (t2029 * t2031)
+  let t2038 := (sqrt ((mat.x11 - (mat.x22 + mat.x00)) + (1 : α)))
+  let t2039 := (t2038 * ((1 : α) / (2 : α)))
+  let t2041 := (mat.x12 + mat.x21)
+  let t2043 := (mat.x10 + mat.x01)
+  let t2045 := (((1 : α) / (2 : α)) / t2038)
+  let t2052 := (sqrt ((mat.x00 - (mat.x11 + mat.x22)) + (1 : α)))
+  let t2053 := (t2052 * ((1 : α) / (2 : α)))
+  let t2055 := (mat.x01 + mat.x10)
+  let t2057 := (mat.x02 + mat.x20)
+  let t2059 := (((1 : α) / (2 : α)) / t2052)
+  if (0 : α) < t2010 then
+    ⟨(t2012 / (2 : α)), ⟨(t2016 * t2015), (t2018 * t2015), (t2020 * t2015)⟩⟩
   else
     if mat.x00 < mat.x11 then
       if mat.x11 < mat.x22 then
-        if t2921 = (0 : α) then
-          ⟨t2923, ⟨t2925, t2927, t2922⟩⟩
+        if t2024 = (0 : α) then
+          ⟨t2026, ⟨t2028, t2030, t2025⟩⟩
         else
-          ⟨t2929, ⟨t2930, t2931, t2922⟩⟩
+          ⟨t2032, ⟨t2033, t2034, t2025⟩⟩
       else
-        if t2935 = (0 : α) then
-          ⟨(t2915 * t2935), ⟨(t2940 * t2935), t2936, (t2938 * t2935)⟩⟩
+        if t2038 = (0 : α) then
+          ⟨(t2018 * t2038), ⟨(t2043 * t2038), t2039, (t2041 * t2038)⟩⟩
         else
-          ⟨(t2915 * t2942), ⟨(t2940 * t2942), t2936, (t2938 * t2942)⟩⟩
+          ⟨(t2018 * t2045), ⟨(t2043 * t2045), t2039, (t2041 * t2045)⟩⟩
     else
       if mat.x00 < mat.x22 then
-        if t2921 = (0 : α) then
-          ⟨t2923, ⟨t2925, t2927, t2922⟩⟩
+        if t2024 = (0 : α) then
+          ⟨t2026, ⟨t2028, t2030, t2025⟩⟩
         else
-          ⟨t2929, ⟨t2930, t2931, t2922⟩⟩
+          ⟨t2032, ⟨t2033, t2034, t2025⟩⟩
       else
-        if t2949 = (0 : α) then
-          ⟨(t2913 * t2949), ⟨t2950, (t2952 * t2949), (t2954 * t2949)⟩⟩
+        if t2052 = (0 : α) then
+          ⟨(t2016 * t2052), ⟨t2053, (t2055 * t2052), (t2057 * t2052)⟩⟩
         else
-          ⟨(t2913 * t2956), ⟨t2950, (t2952 * t2956), (t2954 * t2956)⟩⟩
-
-/-- extracted from the C++ template at T = Sym; 115 path(s) -/
-def C10.rotationMatrix {α : Type} [Add α] [Sub α] [Mul α] [Div α] [Neg α] [LT α] [LE α] [DecidableLT α] [DecidableLE α] [DecidableEq α] [OfNat α 0] [OfNat α 1] [OfNat α 2] [OfNat α 8] (tmin : α) (tmax : α) (teps : α) (sqrt : α → α) (vfrom : V3 α) (vto : V3 α) : (M44 α) :=
-  let t558 := (V3.length tmin tmax sqrt ⟨vfrom.x, vfrom.y, vfrom.z⟩)
-  let t559 := (V3.length tmin tmax sqrt ⟨vto.x, vto.y, vto.z⟩)
-  let t560 := ((0 : α) * (0 : α))
-  let t561 := (t560 + t560)
-  let t562 := (t561 + t560)
-  let t563 := ((0 : α) + (0 : α))
-  let t564 := (V3.length tmin tmax sqrt ⟨t563, t563, t563⟩)
-  let t565 := (t560 - t560)
-  let t566 := (t563 / t564)
-  let t567 := ((0 : α) * t566)
-  let t569 := ((t567 + t567) + t567)
-  let t570 := (t567 - t567)
-  let t573 := ((8 : α) * teps)
-  let t574 := (t573 * t573)
-  let t575 := (t563 * t563)
-  let t577 := ((t575 + t575) + t575)
-  let t578 := (t565 * t565)
-  let t579 := (t578 + t578)
-  let t584 := (t565 * t562)
-  let t587 := (((t562 * t565) + t584) + (t578 - t578))
-  let t588 := (t566 * t566)
-  let t590 := ((t588 + t588) + t588)
-  let t591 := ((0 : α) * (1 : α))
-  let t592 := (t560 - t591)
-  let t593 := (t591 - t560)
-  let t594 := (V3.length tmin tmax sqrt ⟨t565, t593, t592⟩)
-  let t595 := (t592 / t594)
-  let t596 := (t593 / t594)
-  let t597 := (t565 / t594)
-  let t598 := ((0 : α) + t566)
-  let t599 := (V3.length tmin tmax sqrt ⟨t598, t598, t598⟩)
-  let t600 := (t566 + (0 : α))
-  let t601 := (V3.length tmin tmax sqrt ⟨t600, t600, t600⟩)
-  let t602 := (t566 * (0 : α))
-  let t604 := ((t602 + t602) + t602)
-  let t605 := (t602 - t602)
-  let t606 := (t565 * t605)
-  let t615 := (((t562 * t605) + (t565 * t604)) + (t606 - t606))
-  let t617 := (t566 * (t600 / t601))
-  let t619 := ((t617 + t617) + t617)
-  let t620 := (t617 - t617)
-  let t621 := (t565 * t620)
-  let t630 := (((t562 * t620) + (t565 * t619)) + (t621 - t621))
-  let t632 := ((0 : α) * (t598 / t599))
-  let t634 := ((t632 + t632) + t632)
-  let t635 := (t632 - t632)
-  let t636 := (t635 * t605)
-  let t645 := (((t634 * t605) + (t635 * t604)) + (t636 - t636))
-  let t646 := (t635 * t620)
-  let t655 := (((t634 * t620) + (t635 * t619)) + (t646 - t646))
-  let t656 := (t570 * t570)
-  let t657 := (t656 + t656)
-  let t662 := (t570 * t569)
-  let t665 := (((t569 * t570) + t662) + (t656 - t656))
-  let t666 := (vto.z / t559)
-  let t667 := (vto.y / t559)
-  let t668 := (vto.x / t559)
-  let t673 := ((((0 : α) * t668) + ((0 : α) * t667)) + ((0 : α) * t666))
-  let t674 := ((0 : α) + t666)
-  let t675 := ((0 : α) + t667)
-  let t676 := ((0 : α) + t668)
-  let t677 := (V3.length tmin tmax sqrt ⟨t676, t675, t674⟩)
-  let t678 := (t674 / t677)
-  let t679 := (t675 / t677)
-  let t680 := (t676 / t677)
-  let t681 := ((0 : α) * t678)
-  let t682 := ((0 : α) * t679)
-  let t683 := ((0 : α) * t680)
-  let t685 := ((t683 + t682) + t681)
-  let t686 := (t682 - t683)
-  let t687 := (t683 - t681)
-  let t688 := (t681 - t682)
-  let t693 := (((t676 * t676) + (t675 * t675)) + (t674 * t674))
-  let t694 := (t570 * t565)
-  let t703 := (((t569 * t565) + (t570 * t562)) + (t694 - t694))
-  let t708 := (((t680 * t680) + (t679 * t679)) + (t678 * t678))
-  let t709 := ((0 : α) + t678)
-  let t710 := ((0 : α) + t679)
-  let t711 := ((0 : α) + t680)
-  let t712 := (V3.length tmin tmax sqrt ⟨t711, t710, t709⟩)
-  let t713 := (t678 + t666)
-  let t714 := (t679 + t667)
-  let t715 := (t680 + t668)
-  let t716 := (V3.length tmin tmax sqrt ⟨t715, t714, t713⟩)
-  let t717 := (t678 * (0 : α))
-  let t718 := (t679 * (0 : α))
-  let t719 := (t680 * (0 : α))
-  let t721 := ((t719 + t718) + t717)
-  let t722 := (t719 - t718)
-  let t723 := (t717 - t719)
-  let t724 := (t718 - t717)
-  let t725 := (t565 * t722)
-  let t726 := (t565 * t723)
-  let t727 := (t565 * t724)
-  let t731 := ((t562 * t721) - ((t727 + t726) + t725))
-  let t735 := (t565 * t721)
-  let t742 := (((t562 * t722) + t735) + (t726 - t727))
-  let t743 := (((t562 * t723) + t735) + (t727 - t725))
-  let t744 := (((t562 * t724) + t735) + (t725 - t726))
-  let t745 := (t713 / t716)
-  let t746 := (t714 / t716)
-  let t747 := (t715 / t716)
-  let t752 := (((t680 * t747) + (t679 * t746)) + (t678 * t745))
-  let t755 := ((t680 * t746) - (t679 * t747))
-  let t758 := ((t678 * t747) - (t680 * t745))
-  let t761 := ((t679 * t745) - (t678 * t746))
-  let t762 := (t565 * t755)
-  let t763 := (t565 * t758)
-  let t764 := (t565 * t761)
-  let t768 := ((t562 * t752) - ((t764 + t763) + t762))
-  let t772 := (t565 * t752)
-  let t779 := (((t562 * t755) + t772) + (t763 - t764))
-  let t780 := (((t562 * t758) + t772) + (t764 - t762))
-  let t781 := (((t562 * t761) + t772) + (t762 - t763))
-  let t785 := ((0 : α) * (t709 / t712))
-  let t786 := ((0 : α) * (t710 / t712))
-  let t787 := ((0 : α) * (t711 / t712))
-  let t789 := ((t787 + t786) + t785)
-  let t790 := (t786 - t787)
-  let t791 := (t787 - t785)
-  let t792 := (t785 - t786)
-  let t799 := ((t789 * t721) - (((t792 * t724) + (t791 * t723)) + (t790 * t722)))
-  let t818 := (((t789 * t722) + (t790 * t721)) + ((t792 * t723) - (t791 * t724)))
-  let t819 := (((t789 * t723) + (t791 * t721)) + ((t790 * t724) - (t792 * t722)))
-  let t820 := (((t789 * t724) + (t792 * t721)) + ((t791 * t722) - (t790 * t723)))
-  let t827 := ((t789 * t752) - (((t792 * t761) + (t791 * t758)) + (t790 * t755)))
-  let t846 := (((t789 * t755) + (t790 * t752)) + ((t792 * t758) - (t791 * t761)))
-  let t847 := (((t789 * t758) + (t791 * t752)) + ((t790 * t761) - (t792 * t755)))
-  let t848 := (((t789 * t761) + (t792 * t752)) + ((t791 * t755) - (t790 * t758)))
-  let t849 := (t565 * t686)
-  let t850 := (t565 * t687)
-  let t851 := (t565 * t688)
-  let t855 := ((t562 * t685) - ((t851 + t850) + t849))
-  let t859 := (t565 * t685)
-  let t866 := (((t562 * t686) + t859) + (t850 - t851))
-  let t867 := (((t562 * t687) + t859) + (t851 - t849))
-  let t868 := (((t562 * t688) + t859) + (t849 - t850))
-  let t869 := (t570 * t686)
-  let t870 := (t570 * t687)
-  let t871 := (t570 * t688)
-  let t875 := ((t569 * t685) - ((t871 + t870) + t869))
-  let t879 := (t570 * t685)
-  let t886 := (((t569 * t686) + t879) + (t870 - t871))
-  let t887 := (((t569 * t687) + t879) + (t871 - t869))
-  let t888 := (((t569 * t688) + t879) + (t869 - t870))
-  let t889 := (vfrom.z / t558)
-  let t890 := (vfrom.y / t558)
-  let t891 := (vfrom.x / t558)
-  let t892 := (t889 * (0 : α))
-  let t893 := (t890 * (0 : α))
-  let t894 := (t891 * (0 : α))
-  let t896 := ((t894 + t893) + t892)
-  let t897 := (t889 + (0 : α))
-  let t898 := (t890 + (0 : α))
-  let t899 := (t891 + (0 : α))
-  let t900 := (V3.length tmin tmax sqrt ⟨t899, t898, t897⟩)
-  let t901 := (t894 - t893)
-  let t902 := (t892 - t894)
-  let t903 := (t893 - t892)
-  let t904 := (t897 / t900)
-  let t905 := (t898 / t900)
-  let t906 := (t899 / t900)
-  let t911 := (((t891 * t906) + (t890 * t905)) + (t889 * t904))
-  let t914 := ((t891 * t905) - (t890 * t906))
-  let t917 := ((t889 * t906) - (t891 * t904))
-  let t920 := ((t890 * t904) - (t889 * t905))
-  let t925 := (((t899 * t899) + (t898 * t898)) + (t897 * t897))
-  let t926 := (t889 * t889)
-  let t927 := (t890 * t890)
-  let t928 := (t891 * t891)
-  let t929 := (t890 * (1 : α))
-  let t930 := (t894 - t929)
-  let t931 := (t889 * (1 : α))
-  let t932 := (t931 - t894)
-  let t933 := (V3.length tmin tmax sqrt ⟨t903, t932, t930⟩)
-  let t934 := (t930 / t933)
-  let t935 := (t932 / t933)
-  let t936 := (t903 / t933)
-  let t937 := (t891 * (1 : α))
-  let t938 := (t937 - t893)
-  let t939 := (t893 - t931)
-  let t940 := (V3.length tmin tmax sqrt ⟨t939, t902, t938⟩)
-  let t941 := (t938 / t940)
-  let t942 := (t902 / t940)
-  let t943 := (t939 / t940)
-  let t944 := (t892 - t937)
-  let t945 := (t929 - t892)
-  let t946 := (V3.length tmin tmax sqrt ⟨t945, t944, t901⟩)
-  let t947 := (t901 / t946)
-  let t948 := (t944 / t946)
-  let t949 := (t945 / t946)
-  let t950 := (t901 * t565)
-  let t951 := (t902 * t565)
-  let t952 := (t903 * t565)
-  let t956 := ((t896 * t562) - ((t952 + t951) + t950))
-  let t963 := (t896 * t565)
-  let t967 := ((t963 + (t901 * t562)) + (t952 - t951))
-  let t968 := ((t963 + (t902 * t562)) + (t950 - t952))
-  let t969 := ((t963 + (t903 * t562)) + (t951 - t950))
-  let t970 := (t901 * t570)
-  let t971 := (t902 * t570)
-  let t972 := (t903 * t570)
-  let t976 := ((t896 * t569) - ((t972 + t971) + t970))
-  let t983 := (t896 * t570)
-  let t987 := ((t983 + (t901 * t569)) + (t972 - t971))
-  let t988 := ((t983 + (t902 * t569)) + (t970 - t972))
-  let t989 := ((t983 + (t903 * t569)) + (t971 - t970))
-  let t994 := (((t906 * t906) + (t905 * t905)) + (t904 * t904))
-  let t995 := (t889 + t904)
-  let t996 := (t890 + t905)
-  let t997 := (t891 + t906)
-  let t998 := (V3.length tmin tmax sqrt ⟨t997, t996, t995⟩)
-  let t999 := (t904 + (0 : α))
-  let t1000 := (t905 + (0 : α))
-  let t1001 := (t906 + (0 : α))
-  let t1002 := (V3.length tmin tmax sqrt ⟨t1001, t1000, t999⟩)
-  let t1003 := (t904 * (0 : α))
-  let t1004 := (t905 * (0 : α))
-  let t1005 := (t906 * (0 : α))
-  let t1007 := ((t1005 + t1004) + t1003)
-  let t1008 := (t1005 - t1004)
-  let t1009 := (t1003 - t1005)
-  let t1010 := (t1004 - t1003)
-  let t1017 := ((t896 * t1007) - (((t903 * t1010) + (t902 * t1009)) + (t901 * t1008)))
-  let t1036 := (((t896 * t1008) + (t901 * t1007)) + ((t903 * t1009) - (t902 * t1010)))
-  let t1037 := (((t896 * t1009) + (t902 * t1007)) + ((t901 * t1010) - (t903 * t1008)))
-  let t1038 := (((t896 * t1010) + (t903 * t1007)) + ((t902 * t1008) - (t901 * t1009)))
-  let t1039 := (t999 / t1002)
-  let t1040 := (t1000 / t1002)
-  let t1041 := (t1001 / t1002)
-  let t1046 := (((t906 * t1041) + (t905 * t1040)) + (t904 * t1039))
-  let t1049 := ((t906 * t1040) - (t905 * t1041))
-  let t1052 := ((t904 * t1041) - (t906 * t1039))
-  let t1055 := ((t905 * t1039) - (t904 * t1040))
-  let t1062 := ((t896 * t1046) - (((t903 * t1055) + (t902 * t1052)) + (t901 * t1049)))
-  let t1081 := (((t896 * t1049) + (t901 * t1046)) + ((t903 * t1052) - (t902 * t1055)))
-  let t1082 := (((t896 * t1052) + (t902 * t1046)) + ((t901 * t1055) - (t903 * t1049)))
-  let t1083 := (((t896 * t1055) + (t903 * t1046)) + ((t902 * t1049) - (t901 * t1052)))
-  let t1084 := (t995 / t998)
-  let t1085 := (t996 / t998)
-  let t1086 := (t997 / t998)
-  let t1091 := (((t891 * t1086) + (t890 * t1085)) + (t889 * t1084))
-  let t1094 := ((t891 * t1085) - (t890 * t1086))
-  let t1097 := ((t889 * t1086) - (t891 * t1084))
-  let t1100 := ((t890 * t1084) - (t889 * t1085))
-  let t1107 := ((t1091 * t1007) - (((t1100 * t1010) + (t1097 * t1009)) + (t1094 * t1008)))
-  let t1126 := (((t1091 * t1008) + (t1094 * t1007)) + ((t1100 * t1009) - (t1097 * t1010)))
-  let t1127 := (((t1091 * t1009) + (t1097 * t1007)) + ((t1094 * t1010) - (t1100 * t1008)))
-  let t1128 := (((t1091 * t1010) + (t1100 * t1007)) + ((t1097 * t1008) - (t1094 * t1009)))
-  let t1135 := ((t1091 * t1046) - (((t1100 * t1055) + (t1097 * t1052)) + (t1094 * t1049)))
-  let t1154 := (((t1091 * t1049) + (t1094 * t1046)) + ((t1100 * t1052) - (t1097 * t1055)))
-  let t1155 := (((t1091 * t1052) + (t1097 * t1046)) + ((t1094 * t1055) - (t1100 * t1049)))
-  let t1156 := (((t1091 * t1055) + (t1100 * t1046)) + ((t1097 * t1049) - (t1094 * t1052)))
-  let t1157 := (t914 * t565)
-  let t1158 := (t917 * t565)
-  let t1159 := (t920 * t565)
-  let t1163 := ((t911 * t562) - ((t1159 + t1158) + t1157))
-  let t1170 := (t911 * t565)
-  let t1174 := ((t1170 + (t914 * t562)) + (t1159 - t1158))
-  let t1175 := ((t1170 + (t917 * t562)) + (t1157 - t1159))
-  let t1176 := ((t1170 + (t920 * t562)) + (t1158 - t1157))
-  let t1177 := (t914 * t570)
-  let t1178 := (t917 * t570)
-  let t1179 := (t920 * t570)
-  let t1183 := ((t911 * t569) - ((t1179 + t1178) + t1177))
-  let t1190 := (t911 * t570)
-  let t1194 := ((t1190 + (t914 * t569)) + (t1179 - t1178))
-  let t1195 := ((t1190 + (t917 * t569)) + (t1177 - t1179))
-  let t1196 := ((t1190 + (t920 * t569)) + (t1178 - t1177))
-  let t1201 := (((t891 * t668) + (t890 * t667)) + (t889 * t666))
-  let t1202 := (t889 + t666)
-  let t1203 := (t890 + t667)
-  let t1204 := (t891 + t668)
-  let t1205 := (V3.length tmin tmax sqrt ⟨t1204, t1203, t1202⟩)
-  let t1206 := (t1202 / t1205)
-  let t1207 := (t1203 / t1205)
-  let t1208 := (t1204 / t1205)
-  let t1213 := (((t891 * t1208) + (t890 * t1207)) + (t889 * t1206))
-  let t1216 := ((t891 * t1207) - (t890 * t1208))
-  let t1219 := ((t889 * t1208) - (t891 * t1206))
-  let t1222 := ((t890 * t1206) - (t889 * t1207))
-  let t1227 := (((t1204 * t1204) + (t1203 * t1203)) + (t1202 * t1202))
-  let t1234 := ((t896 * t685) - (((t903 * t688) + (t902 * t687)) + (t901 * t686)))
-  let t1253 := (((t896 * t686) + (t901 * t685)) + ((t903 * t687) - (t902 * t688)))
-  let t1254 := (((t896 * t687) + (t902 * t685)) + ((t901 * t688) - (t903 * t686)))
-  let t1255 := (((t896 * t688) + (t903 * t685)) + ((t902 * t686) - (t901 * t687)))
-  let t1262 := ((t911 * t685) - (((t920 * t688) + (t917 * t687)) + (t914 * t686)))
-  let t1281 := (((t911 * t686) + (t914 * t685)) + ((t920 * t687) - (t917 * t688)))
-  let t1282 := (((t911 * t687) + (t917 * t685)) + ((t914 * t688) - (t920 * t686)))
-  let t1283 := (((t911 * t688) + (t920 * t685)) + ((t917 * t686) - (t914 * t687)))
-  let t1288 := (((t1208 * t1208) + (t1207 * t1207)) + (t1206 * t1206))
-  let t1289 := (t889 + t1206)
-  let t1290 := (t890 + t1207)
-  let t1291 := (t891 + t1208)
-  let t1292 := (V3.length tmin tmax sqrt ⟨t1291, t1290, t1289⟩)
-  let t1293 := (t1206 + t666)
-  let t1294 := (t1207 + t667)
-  let t1295 := (t1208 + t668)
-  let t1296 := (V3.length tmin tmax sqrt ⟨t1295, t1294, t1293⟩)
-  let t1297 := (t1206 * (0 : α))
-  let t1298 := (t1207 * (0 : α))
-  let t1299 := (t1208 * (0 : α))
-  let t1301 := ((t1299 + t1298) + t1297)
-  let t1302 := (t1299 - t1298)
-  let t1303 := (t1297 - t1299)
-  let t1304 := (t1298 - t1297)
-  let t1311 := ((t896 * t1301) - (((t903 * t1304) + (t902 * t1303)) + (t901 * t1302)))
-  let t1330 := (((t896 * t1302) + (t901 * t1301)) + ((t903 * t1303) - (t902 * t1304)))
-  let t1331 := (((t896 * t1303) + (t902 * t1301)) + ((t901 * t1304) - (t903 * t1302)))
-  let t1332 := (((t896 * t1304) + (t903 * t1301)) + ((t902 * t1302) - (t901 * t1303)))
-  let t1333 := (t1293 / t1296)
-  let t1334 := (t1294 / t1296)
-  let t1335 := (t1295 / t1296)
-  let t1340 := (((t1208 * t1335) + (t1207 * t1334)) + (t1206 * t1333))
-  let t1343 := ((t1208 * t1334) - (t1207 * t1335))
-  let t1346 := ((t1206 * t1335) - (t1208 * t1333))
-  let t1349 := ((t1207 * t1333) - (t1206 * t1334))
-  let t1356 := ((t896 * t1340) - (((t903 * t1349) + (t902 * t1346)) + (t901 * t1343)))
-  let t1375 := (((t896 * t1343) + (t901 * t1340)) + ((t903 * t1346) - (t902 * t1349)))
-  let t1376 := (((t896 * t1346) + (t902 * t1340)) + ((t901 * t1349) - (t903 * t1343)))
-  let t1377 := (((t896 * t1349) + (t903 * t1340)) + ((t902 * t1343) - (t901 * t1346)))
-  let t1378 := (t1289 / t1292)
-  let t1379 := (t1290 / t1292)
-  let t1380 := (t1291 / t1292)
-  let t1385 := (((t891 * t1380) + (t890 * t1379)) + (t889 * t1378))
-  let t1388 := ((t891 * t1379) - (t890 * t1380))
-  let t1391 := ((t889 * t1380) - (t891 * t1378))
-  let t1394 := ((t890 * t1378) - (t889 * t1379))
-  let t1401 := ((t1385 * t1301) - (((t1394 * t1304) + (t1391 * t1303)) + (t1388 * t1302)))
-  let t1420 := (((t1385 * t1302) + (t1388 * t1301)) + ((t1394 * t1303) - (t1391 * t1304)))
-  let t1421 := (((t1385 * t1303) + (t1391 * t1301)) + ((t1388 * t1304) - (t1394 * t1302)))
-  let t1422 := (((t1385 * t1304) + (t1394 * t1301)) + ((t1391 * t1302) - (t1388 * t1303)))
-  let t1429 := ((t1385 * t1340) - (((t1394 * t1349) + (t1391 * t1346)) + (t1388 * t1343)))
-  let t1448 := (((t1385 * t1343) + (t1388 * t1340)) + ((t1394 * t1346) - (t1391 * t1349)))
-  let t1449 := (((t1385 * t1346) + (t1391 * t1340)) + ((t1388 * t1349) - (t1394 * t1343)))
-  let t1450 := (((t1385 * t1349) + (t1394 * t1340)) + ((t1391 * t1343) - (t1388 * t1346)))
-  let t2961 := ((1 : α) - ((2 : α) * t579))
-  let t2963 := ((2 : α) * (t578 - t584))
-  let t2965 := ((2 : α) * (t578 + t584))
-  let t2967 := ((1 : α) - ((2 : α) * t657))
-  let t2969 := ((2 : α) * (t656 - t662))
-  let t2971 := ((2 : α) * (t656 + t662))
-  let t2972 := (t587 * t587)
-  let t2975 := ((1 : α) - ((2 : α) * (t2972 + t2972)))
-  let t2976 := (t587 * ((t562 * t562) - (t579 + t578)))
-  let t2978 := ((2 : α) * (t2972 - t2976))
-  let t2980 := ((2 : α) * (t2972 + t2976))
-  let t2981 := ((2 : α) * t561)
-  let t2982 := ((1 : α) - t2981)
-  let t2983 := ((2 : α) * t565)
-  let t2984 := (t597 * t597)
-  let t2985 := (t596 * t596)
-  let t2988 := ((1 : α) - ((2 : α) * (t2985 + t2984)))
-  let t2989 := (t597 * (0 : α))
-  let t2990 := (t596 * t595)
-  let t2992 := ((2 : α) * (t2990 - t2989))
-  let t2993 := (t596 * (0 : α))
-  let t2994 := (t595 * t597)
-  let t2996 := ((2 : α) * (t2994 + t2993))
-  let t2998 := ((2 : α) * (t2990 + t2989))
-  let t2999 := (t595 * t595)
-  let t3002 := ((1 : α) - ((2 : α) * (t2999 + t2984)))
-  let t3003 := (t595 * (0 : α))
-  let t3004 := (t597 * t596)
-  let t3006 := ((2 : α) * (t3004 - t3003))
-  let t3008 := ((2 : α) * (t2994 - t2993))
-  let t3010 := ((2 : α) * (t3004 + t3003))
-  let t3013 := ((1 : α) - ((2 : α) * (t2985 + t2999)))
-  let t3014 := (t615 * t615)
-  let t3017 := ((1 : α) - ((2 : α) * (t3014 + t3014)))
-  let t3018 := (t615 * ((t562 * t604) - ((t606 + t606) + t606)))
-  let t3020 := ((2 : α) * (t3014 - t3018))
-  let t3022 := ((2 : α) * (t3014 + t3018))
-  let t3023 := (t630 * t630)
-  let t3026 := ((1 : α) - ((2 : α) * (t3023 + t3023)))
-  let t3027 := (t630 * ((t562 * t619) - ((t621 + t621) + t621)))
-  let t3029 := ((2 : α) * (t3023 - t3027))
-  let t3031 := ((2 : α) * (t3023 + t3027))
-  let t3032 := (t645 * t645)
-  let t3035 := ((1 : α) - ((2 : α) * (t3032 + t3032)))
-  let t3036 := (t645 * ((t634 * t604) - ((t636 + t636) + t636)))
-  let t3038 := ((2 : α) * (t3032 - t3036))
-  let t3040 := ((2 : α) * (t3032 + t3036))
-  let t3041 := (t655 * t655)
-  let t3044 := ((1 : α) - ((2 : α) * (t3041 + t3041)))
-  let t3045 := (t655 * ((t634 * t619) - ((t646 + t646) + t646)))
-  let t3047 := ((2 : α) * (t3041 - t3045))
-  let t3049 := ((2 : α) * (t3041 + t3045))
-  let t3050 := (t665 * t665)
-  let t3053 := ((1 : α) - ((2 : α) * (t3050 + t3050)))
-  let t3054 := (t665 * ((t569 * t569) - (t657 + t656)))
-  let t3056 := ((2 : α) * (t3050 - t3054))
-  let t3058 := ((2 : α) * (t3050 + t3054))
-  let t3059 := (t688 * t688)
-  let t3060 := (t687 * t687)
-  let t3064 := (t688 * t685)
-  let t3065 := (t687 * t686)
-  let t3068 := (t687 * t685)
-  let t3069 := (t686 * t688)
-  let t3074 := (t686 * t686)
-  let t3078 := (t686 * t685)
-  let t3079 := (t688 * t687)
-  let t3089 := (t703 * t703)
-  let t3092 := ((1 : α) - ((2 : α) * (t3089 + t3089)))
-  let t3093 := (t703 * ((t569 * t562) - ((t694 + t694) + t694)))
-  let t3095 := ((2 : α) * (t3089 - t3093))
-  let t3097 := ((2 : α) * (t3089 + t3093))
-  let t3098 := (t744 * t744)
-  let t3099 := (t743 * t743)
-  let t3103 := (t744 * t731)
-  let t3104 := (t743 * t742)
-  let t3107 := (t743 * t731)
-  let t3108 := (t742 * t744)
-  let t3113 := (t742 * t742)
-  let t3117 := (t742 * t731)
-  let t3118 := (t744 * t743)
-  let t3128 := (t781 * t781)
-  let t3129 := (t780 * t780)
-  let t3133 := (t781 * t768)
-  let t3134 := (t780 * t779)
-  let t3137 := (t780 * t768)
-  let t3138 := (t779 * t781)
-  let t3143 := (t779 * t779)
-  let t3147 := (t779 * t768)
-  let t3148 := (t781 * t780)
-  let t3158 := (t820 * t820)
-  let t3159 := (t819 * t819)
-  let t3163 := (t820 * t799)
-  let t3164 := (t819 * t818)
-  let t3167 := (t819 * t799)
-  let t3168 := (t818 * t820)
-  let t3173 := (t818 * t818)
-  let t3177 := (t818 * t799)
-  let t3178 := (t820 * t819)
-  let t3188 := (t848 * t848)
-  let t3189 := (t847 * t847)
-  let t3193 := (t848 * t827)
-  let t3194 := (t847 * t846)
-  let t3197 := (t847 * t827)
-  let t3198 := (t846 * t848)
-  let t3203 := (t846 * t846)
-  let t3207 := (t846 * t827)
-  let t3208 := (t848 * t847)
-  let t3218 := (t868 * t868)
-  let t3219 := (t867 * t867)
-  let t3223 := (t868 * t855)
-  let t3224 := (t867 * t866)
-  let t3227 := (t867 * t855)
-  let t3228 := (t866 * t868)
-  let t3233 := (t866 * t866)
-  let t3237 := (t866 * t855)
-  let t3238 := (t868 * t867)
-  let t3248 := (t888 * t888)
-  let t3249 := (t887 * t887)
-  let t3253 := (t888 * t875)
-  let t3254 := (t887 * t886)
-  let t3257 := (t887 * t875)
-  let t3258 := (t886 * t888)
-  let t3263 := (t886 * t886)
-  let t3267 := (t886 * t875)
-  let t3268 := (t888 * t887)
-  let t3278 := (t903 * t903)
-  let t3279 := (t902 * t902)
-  let t3282 := ((1 : α) - ((2 : α) * (t3279 + t3278)))
-  let t3283 := (t903 * t896)
-  let t3284 := (t902 * t901)
-  let t3286 := ((2 : α) * (t3284 - t3283))
-  let t3287 := (t902 * t896)
-  let t3288 := (t901 * t903)
-  let t3290 := ((2 : α) * (t3288 + t3287))
-  let t3292 := ((2 : α) * (t3284 + t3283))
-  let t3293 := (t901 * t901)
-  let t3296 := ((1 : α) - ((2 : α) * (t3293 + t3278)))
-  let t3297 := (t901 * t896)
-  let t3298 := (t903 * t902)
-  let t3300 := ((2 : α) * (t3298 - t3297))
-  let t3302 := ((2 : α) * (t3288 - t3287))
-  let t3304 := ((2 : α) * (t3298 + t3297))
-  let t3307 := ((1 : α) - ((2 : α) * (t3279 + t3293)))
-  let t3308 := (t920 * t920)
-  let t3309 := (t917 * t917)
-  let t3313 := (t920 * t911)
-  let t3314 := (t917 * t914)
-  let t3317 := (t917 * t911)
-  let t3318 := (t914 * t920)
-  let t3323 := (t914 * t914)
-  let t3327 := (t914 * t911)
-  let t3328 := (t920 * t917)
-  let t3338 := (t936 * t936)
-  let t3339 := (t935 * t935)
-  let t3342 := ((1 : α) - ((2 : α) * (t3339 + t3338)))
-  let t3343 := (t936 * (0 : α))
-  let t3344 := (t935 * t934)
-  let t3346 := ((2 : α) * (t3344 - t3343))
-  let t3347 := (t935 * (0 : α))
-  let t3348 := (t934 * t936)
-  let t3350 := ((2 : α) * (t3348 + t3347))
-  let t3352 := ((2 : α) * (t3344 + t3343))
-  let t3353 := (t934 * t934)
-  let t3356 := ((1 : α) - ((2 : α) * (t3353 + t3338)))
-  let t3357 := (t934 * (0 : α))
-  let t3358 := (t936 * t935)
-  let t3360 := ((2 : α) * (t3358 - t3357))
-  let t3362 := ((2 : α) * (t3348 - t3347))
-  let t3364 := ((2 : α) * (t3358 + t3357))
-  let t3367 := ((1 : α) - ((2 : α) * (t3339 + t3353)))
-  let t3368 := (t943 * t943)
-  let t3369 := (t942 * t942)
-  let t3372 := ((1 : α) - ((2 : α) * (t3369 + t3368)))
-  let t3373 := (t943 * (0 : α))
-  let t3374 := (t942 * t941)
-  let t3376 := ((2 : α) * (t3374 - t3373))
-  let t3377 := (t942 * (0 : α))
-  let t3378 := (t941 * t943)
-  let t3380 := ((2 : α) * (t3378 + t3377))
-  let t3382 := ((2 : α) * (t3374 + t3373))
-  let t3383 := (t941 * t941)
-  let t3386 := ((1 : α) - ((2 : α) * (t3383 + t3368)))
-  let t3387 := (t941 * (0 : α))
-  let t3388 := (t943 * t942)
-  let t3390 := ((2 : α) * (t3388 - t3387))
-  let t3392 := ((2 : α) * (t3378 - t3377))
-  let t3394 := ((2 : α) * (t3388 + t3387))
-  let t3397 := ((1 : α) - ((2 : α) * (t3369 + t3383)))
-  let t3398 := (t949 * t949)
-  let t3399 := (t948 * t948)
-  let t3402 := ((1 : α) - ((2 : α) * (t3399 + t3398)))
-  let t3403 := (t949 * (0 : α))
-  let t3404 := (t948 * t947)
-  let t3406 := ((2 : α) * (t3404 - t3403))
-  let t3407 := (t948 * (0 : α))
-  let t3408 := (t947 * t949)
-  let t3410 := ((2 : α) * (t3408 + t3407))
-  let t3412 := ((2 : α) * (t3404 + t3403))
-  let t3413 := (t947 * t947)
-  let t3416 := ((1 : α) - ((2 : α) * (t3413 + t3398)))
-  let t3417 := (t947 * (0 : α))
-  let t3418 := (t949 * t948)
-  let t3420 := ((2 : α) * (t3418 - t3417))
-  let t3422 := ((2 : α) * (t3408 - t3407))
-  let t3424 := ((2 : α) * (t3418 + t3417))
-  let t3427 := ((1 : α) - ((2 : α) * (t3399 + t3413)))
-  let t3428 := (t969 * t969)
-  let t3429 := (t968 * t968)
-  let t3432 := ((1 : α) - ((2 : α) * (t3429 + t3428)))
-  let t3433 := (t969 * t956)
-  let t3434 := (t968 * t967)
-  let t3436 := ((2 : α) * (t3434 - t3433))
-  let t3437 := (t968 * t956)
-  let t3438 := (t967 * t969)
-  let t3440 := ((2 : α) * (t3438 + t3437))
-  let t3442 := ((2 : α) * (t3434 + t3433))
-  let t3443 := (t967 * t967)
-  let t3446 := ((1 : α) - ((2 : α) * (t3443 + t3428)))
-  let t3447 := (t967 * t956)
-  let t3448 := (t969 * t968)
-  let t3450 := ((2 : α) * (t3448 - t3447))
-  let t3452 := ((2 : α) * (t3438 - t3437))
-  let t3454 := ((2 : α) * (t3448 + t3447))
-  let t3457 := ((1 : α) - ((2 : α) * (t3429 + t3443)))
-  let t3458 := (t989 * t989)
-  let t3459 := (t988 * t988)
-  let t3462 := ((1 : α) - ((2 : α) * (t3459 + t3458)))
-  let t3463 := (t989 * t976)
-  let t3464 := (t988 * t987)
-  let t3466 := ((2 : α) * (t3464 - t3463))
-  let t3467 := (t988 * t976)
-  let t3468 := (t987 * t989)
-  let t3470 := ((2 : α) * (t3468 + t3467))
-  let t3472 := ((2 : α) * (t3464 + t3463))
-  let t3473 := (t987 * t987)
-  let t3476 := ((1 : α) - ((2 : α) * (t3473 + t3458)))
-  let t3477 := (t987 * t976)
-  let t3478 := (t989 * t988)
-  let t3480 := ((2 : α) * (t3478 - t3477))
-  let t3482 := ((2 : α) * (t3468 - t3467))
-  let t3484 := ((2 : α) * (t3478 + t3477))
-  let t3487 := ((1 : α) - ((2 : α) * (t3459 + t3473)))
-  let t3488 := (t1038 * t1038)
-  let t3489 := (t1037 * t1037)
-  let t3493 := (t1038 * t1017)
-  let t3494 := (t1037 * t1036)
-  let t3497 := (t1037 * t1017)
-  let t3498 := (t1036 * t1038)
-  let t3503 := (t1036 * t1036)
-  let t3507 := (t1036 * t1017)
-  let t3508 := (t1038 * t1037)
-  let t3518 := (t1083 * t1083)
-  let t3519 := (t1082 * t1082)
-  let t3523 := (t1083 * t1062)
-  let t3524 := (t1082 * t1081)
-  let t3527 := (t1082 * t1062)
-  let t3528 := (t1081 * t1083)
-  let t3533 := (t1081 * t1081)
-  let t3537 := (t1081 * t1062)
-  let t3538 := (t1083 * t1082)
-  let t3548 := (t1128 * t1128)
-  let t3549 := (t1127 * t1127)
-  let t3553 := (t1128 * t1107)
-  let t3554 := (t1127 * t1126)
-  let t3557 := (t1127 * t1107)
-  let t3558 := (t1126 * t1128)
-  let t3563 := (t1126 * t1126)
-  let t3567 := (t1126 * t1107)
-  let t3568 := (t1128 * t1127)
-  let t3578 := (t1156 * t1156)
-  let t3579 := (t1155 * t1155)
-  let t3583 := (t1156 * t1135)
-  let t3584 := (t1155 * t1154)
-  let t3587 := (t1155 * t1135)
-  let t3588 := (t1154 * t1156)
-  let t3593 := (t1154 * t1154)
-  let t3597 := (t1154 * t1135)
-  let t3598 := (t1156 * t1155)
-  let t3608 := (t1176 * t1176)
-  let t3609 := (t1175 * t1175)
-  let t3612 := ((1 : α) - ((2 : α) * (t3609 + t3608)))
-  let t3613 := (t1176 * t1163)
-  let t3614 := (t1175 * t1174)
-  let t3616 := ((2 : α) * (t3614 - t3613))
-  let t3617 := (t1175 * t1163)
-  let t3618 := (t1174 * t1176)
-  let t3620 := ((2 : α) * (t3618 + t3617))
-  let t3622 := ((2 : α) * (t3614 + t3613))
-  let t3623 := (t1174 * t1174)
-  let t3626 := ((1 : α) - ((2 : α) * (t3623 + t3608)))
-  let t3627 := (t1174 * t1163)
-  let t3628 := (t1176 * t1175)
-  let t3630 := ((2 : α) * (t3628 - t3627))
-  let t3632 := ((2 : α) * (t3618 - t3617))
-  let t3634 := ((2 : α) * (t3628 + t3627))
-  let t3637 := ((1 : α) - ((2 : α) * (t3609 + t3623)))
-  let t3638 := (t1196 * t1196)
-  let t3639 := (t1195 * t1195)
-  let t3643 := (t1196 * t1183)
-  let t3644 := (t1195 * t1194)
-  let t3647 := (t1195 * t1183)
-  let t3648 := (t1194 * t1196)
-  let t3653 := (t1194 * t1194)
-  let t3657 := (t1194 * t1183)
-  let t3658 := (t1196 * t1195)
-  let t3668 := (t1222 * t1222)
-  let t3669 := (t1219 * t1219)
-  let t3673 := (t1222 * t1213)
-  let t3674 := (t1219 * t1216)
-  let t3677 := (t1219 * t1213)
-  let t3678 := (t1216 * t1222)
-  let t3683 := (t1216 * t1216)
-  let t3687 := (t1216 * t1213)
-  let t3688 := (t1222 * t1219)
-  let t3698 := (t1255 * t1255)
-  let t3699 := (t1254 * t1254)
-  let t3702 := ((1 : α) - ((2 : α) * (t3699 + t3698)))
-  let t3703 := (t1255 * t1234)
-  let t3704 := (t1254 * t1253)
-  let t3706 := ((2 : α) * (t3704 - t3703))
-  let t3707 := (t1254 * t1234)
-  let t3708 := (t1253 * t1255)
-  let t3710 := ((2 : α) * (t3708 + t3707))
-  let t3712 := ((2 : α) * (t3704 + t3703))
-  let t3713 := (t1253 * t1253)
-  let t3716 := ((1 : α) - ((2 : α) * (t3713 + t3698)))
-  let t3717 := (t1253 * t1234)
-  let t3718 := (t1255 * t1254)
-  let t3720 := ((2 : α) * (t3718 - t3717))
-  let t3722 := ((2 : α) * (t3708 - t3707))
-  let t3724 := ((2 : α) * (t3718 + t3717))
-  let t3727 := ((1 : α) - ((2 : α) * (t3699 + t3713)))
-  let t3728 := (t1283 * t1283)
-  let t3729 := (t1282 * t1282)
-  let t3732 := ((1 : α) - ((2 : α) * (t3729 + t3728)))
-  let t3733 := (t1283 * t1262)
-  let t3734 := (t1282 * t1281)
-  let t3736 := ((2 : α) * (t3734 - t3733))
-  let t3737 := (t1282 * t1262)
-  let t3738 := (t1281 * t1283)
-  let t3740 := ((2 : α) * (t3738 + t3737))
-  let t3742 := ((2 : α) * (t3734 + t3733))
-  let t3743 := (t1281 * t1281)
-  let t3746 := ((1 : α) - ((2 : α) * (t3743 + t3728)))
-  let t3747 := (t1281 * t1262)
-  let t3748 := (t1283 * t1282)
-  let t3750 := ((2 : α) * (t3748 - t3747))
-  let t3752 := ((2 : α) * (t3738 - t3737))
-  let t3754 := ((2 : α) * (t3748 + t3747))
-  let t3757 := ((1 : α) - ((2 : α) * (t3729 + t3743)))
-  let t3758 := (t1332 * t1332)
-  let t3759 := (t1331 * t1331)
-  let t3763 := (t1332 * t1311)
-  let t3764 := (t1331 * t1330)
-  let t3767 := (t1331 * t1311)
-  let t3768 := (t1330 * t1332)
-  let t3773 := (t1330 * t1330)
-  let t3777 := (t1330 * t1311)
-  let t3778 := (t1332 * t1331)
-  let t3788 := (t1377 * t1377)
-  let t3789 := (t1376 * t1376)
-  let t3793 := (t1377 * t1356)
-  let t3794 := (t1376 * t1375)
-  let t3797 := (t1376 * t1356)
-  let t3798 := (t1375 * t1377)
-  let t3803 := (t1375 * t1375)
-  let t3807 := (t1375 * t1356)
-  let t3808 := (t1377 * t1376)
-  let t3818 := (t1422 * t1422)
-  let t3819 := (t1421 * t1421)
-  let t3823 := (t1422 * t1401)
-  let t3824 := (t1421 * t1420)
-  let t3827 := (t1421 * t1401)
-  let t3828 := (t1420 * t1422)
-  let t3833 := (t1420 * t1420)
-  let t3837 := (t1420 * t1401)
-  let t3838 := (t1422 * t1421)
-  let t3848 := (t1450 * t1450)
-  let t3849 := (t1449 * t1449)
-  let t3853 := (t1450 * t1429)
-  let t3854 := (t1449 * t1448)
-  let t3857 := (t1449 * t1429)
-  let t3858 := (t1448 * t1450)
-  let t3863 := (t1448 * t1448)
-  let t3867 := (t1448 * t1429)
-  let t3868 := (t1450 * t1449)
-  if t558 = (0 : α) then
-    if t559 = (0 : α) then
-      if (0 : α) ≤ t562 then
-        if t564 = (0 : α) then
-          ⟨t2961, t2965, t2963, (0 : α), t2963, t2961, t2965, (0 : α), t2965, t2963, t2961, (0 : α), (0 : α), (0 : α), (0 : α), (1 : α)⟩
-        else
-          ⟨t2967, t2971, t2969, (0 : α), t2969, t2967, t2971, (0 : α), t2971, t2969, t2967, (0 : α), (0 : α), (0 : α), (0 : α), (1 : α)⟩
-      else
-        if t574 < t577 then
-          if t564 = (0 : α) then
-            ⟨t2975, t2980, t2978, (0 : α), t2978, t2975, t2980, (0 : α), t2980, t2978, t2975, (0 : α), (0 : α), (0 : α), (0 : α), (1 : α)⟩
-          else
-            if t590 = (0 : α) then
-              if t594 = (0 : α) then
-                ⟨t2982, t2981, t2983, (0 : α), t2983, t2982, t2981, (0 : α), t2981, t2983, t2982, (0 : α), (0 : α), (0 : α), (0 : α), (1 : α)⟩
-              else
-                ⟨t3013, t3010, t3008, (0 : α), t3006, t3002, t2998, (0 : α), t2996, t2992, t2988, (0 : α), (0 : α), (0 : α), (0 : α), (1 : α)⟩
-            else
-              if t599 = (0 : α) then
-                if t601 = (0 : α) then
-                  ⟨t3017, t3022, t3020, (0 : α), t3020, t3017, t3022, (0 : α), t3022, t3020, t3017, (0 : α), (0 : α), (0 : α), (0 : α), (1 : α)⟩
-                else
-                  ⟨t3026, t3031, t3029, (0 : α), t3029, t3026, t3031, (0 : α), t3031, t3029, t3026, (0 : α), (0 : α), (0 : α), (0 : α), (1 : α)⟩
-              else
-                if t601 = (0 : α) then
-                  ⟨t3035, t3040, t3038, (0 : α), t3038, t3035, t3040, (0 : α), t3040, t3038, t3035, (0 : α), (0 : α), (0 : α), (0 : α), (1 : α)⟩
-                else
-                  ⟨t3044, t3049, t3047, (0 : α), t3047, t3044, t3049, (0 : α), t3049, t3047, t3044, (0 : α), (0 : α), (0 : α), (0 : α), (1 : α)⟩
-        else
-          if t564 = (0 : α) then
-            ⟨t2975, t2980, t2978, (0 : α), t2978, t2975, t2980, (0 : α), t2980, t2978, t2975, (0 : α), (0 : α), (0 : α), (0 : α), (1 : α)⟩
-          else
-            ⟨t3053, t3058, t3056, (0 : α), t3056, t3053, t3058, (0 : α), t3058, t3056, t3053, (0 : α), (0 : α), (0 : α), (0 : α), (1 : α)⟩
-    else
-      if (0 : α) ≤ t673 then
-        if t677 = (0 : α) then
-          ⟨t2961, t2965, t2963, (0 : α), t2963, t2961, t2965, (0 : α), t2965, t2963, t2961, (0 : α), (0 : α), (0 : α), (0 : α), (1 : α)⟩
-        else
-          ⟨((1 : α) - ((2 : α) * (t3060 + t3074))), ((2 : α) * (t3079 + t3078)), ((2 : α) * (t3069 - t3068)), (0 : α), ((2 : α) * (t3079 - t3078)), ((1 : α) - ((2 : α) * (t3074 + t3059))), ((2 : α) * (t3065 + t3064)), (0 : α), ((2 : α) * (t3069 + t3068)), ((2 : α) * (t3065 - t3064)), ((1 : α) - ((2 : α) * (t3060 + t3059))), (0 : α), (0 : α), (0 : α), (0 : α), (1 : α)⟩
-      else
-        if t574 < t693 then
-          if t677 = (0 : α) then
-            if t562 = (0 : α) then
-              if t594 = (0 : α) then
-                ⟨t2982, t2981, t2983, (0 : α), t2983, t2982, t2981, (0 : α), t2981, t2983, t2982, (0 : α), (0 : α), (0 : α), (0 : α), (1 : α)⟩
-              else
-                ⟨t3013, t3010, t3008, (0 : α), t3006, t3002, t2998, (0 : α), t2996, t2992, t2988, (0 : α), (0 : α), (0 : α), (0 : α), (1 : α)⟩
-            else
-              if t564 = (0 : α) then
-                ⟨t2975, t2980, t2978, (0 : α), t2978, t2975, t2980, (0 : α), t2980, t2978, t2975, (0 : α), (0 : α), (0 : α), (0 : α), (1 : α)⟩
-              else
-                ⟨t3092, t3097, t3095, (0 : α), t3095, t3092, t3097, (0 : α), t3097, t3095, t3092, (0 : α), (0 : α), (0 : α), (0 : α), (1 : α)⟩
-          else
-            if t708 = (0 : α) then
-              if t594 = (0 : α) then
-                ⟨t2982, t2981, t2983, (0 : α), t2983, t2982, t2981, (0 : α), t2981, t2983, t2982, (0 : α), (0 : α), (0 : α), (0 : α), (1 : α)⟩
-              else
-                ⟨t3013, t3010, t3008, (0 : α), t3006, t3002, t2998, (0 : α), t2996, t2992, t2988, (0 : α), (0 : α), (0 : α), (0 : α), (1 : α)⟩
-            else
-              if t712 = (0 : α) then
-                if t716 = (0 : α) then
-                  ⟨((1 : α) - ((2 : α) * (t3099 + t3113))), ((2 : α) * (t3118 + t3117)), ((2 : α) * (t3108 - t3107)), (0 : α), ((2 : α) * (t3118 - t3117)), ((1 : α) - ((2 : α) * (t3113 + t3098))), ((2 : α) * (t3104 + t3103)), (0 : α), ((2 : α) * (t3108 + t3107)), ((2 : α) * (t3104 - t3103)), ((1 : α) - ((2 : α) * (t3099 + t3098))), (0 : α), (0 : α), (0 : α), (0 : α), (1 : α)⟩
-                else
-                  ⟨((1 : α) - ((2 : α) * (t3129 + t3143))), ((2 : α) * (t3148 + t3147)), ((2 : α) * (t3138 - t3137)), (0 : α), ((2 : α) * (t3148 - t3147)), ((1 : α) - ((2 : α) * (t3143 + t3128))), ((2 : α) * (t3134 + t3133)), (0 : α), ((2 : α) * (t3138 + t3137)), ((2 : α) * (t3134 - t3133)), ((1 : α) - ((2 : α) * (t3129 + t3128))), (0 : α), (0 : α), (0 : α), (0 : α), (1 : α)⟩
-              else
-                if t716 = (0 : α) then
-                  ⟨((1 : α) - ((2 : α) * (t3159 + t3173))), ((2 : α) * (t3178 + t3177)), ((2 : α) * (t3168 - t3167)), (0 : α), ((2 : α) * (t3178 - t3177)), ((1 : α) - ((2 : α) * (t3173 + t3158))), ((2 : α) * (t3164 + t3163)), (0 : α), ((2 : α) * (t3168 + t3167)), ((2 : α) * (t3164 - t3163)), ((1 : α) - ((2 : α) * (t3159 + t3158))), (0 : α), (0 : α), (0 : α), (0 : α), (1 : α)⟩
-                else
-                  ⟨((1 : α) - ((2 : α) * (t3189 + t3203))), ((2 : α) * (t3208 + t3207)), ((2 : α) * (t3198 - t3197)), (0 : α), ((2 : α) * (t3208 - t3207)), ((1 : α) - ((2 : α) * (t3203 + t3188))), ((2 : α) * (t3194 + t3193)), (0 : α), ((2 : α) * (t3198 + t3197)), ((2 : α) * (t3194 - t3193)), ((1 : α) - ((2 : α) * (t3189 + t3188))), (0 : α), (0 : α), (0 : α), (0 : α), (1 : α)⟩
-        else
-          if t562 = (0 : α) then
-            if t594 = (0 : α) then
-              ⟨t2982, t2981, t2983, (0 : α), t2983, t2982, t2981, (0 : α), t2981, t2983, t2982, (0 : α), (0 : α), (0 : α), (0 : α), (1 : α)⟩
-            else
-              ⟨t3013, t3010, t3008, (0 : α), t3006, t3002, t2998, (0 : α), t2996, t2992, t2988, (0 : α), (0 : α), (0 : α), (0 : α), (1 : α)⟩
-          else
-            if t564 = (0 : α) then
-              if t677 = (0 : α) then
-                ⟨t2975, t2980, t2978, (0 : α), t2978, t2975, t2980, (0 : α), t2980, t2978, t2975, (0 : α), (0 : α), (0 : α), (0 : α), (1 : α)⟩
-              else
-                ⟨((1 : α) - ((2 : α) * (t3219 + t3233))), ((2 : α) * (t3238 + t3237)), ((2 : α) * (t3228 - t3227)), (0 : α), ((2 : α) * (t3238 - t3237)), ((1 : α) - ((2 : α) * (t3233 + t3218))), ((2 : α) * (t3224 + t3223)), (0 : α), ((2 : α) * (t3228 + t3227)), ((2 : α) * (t3224 - t3223)), ((1 : α) - ((2 : α) * (t3219 + t3218))), (0 : α), (0 : α), (0 : α), (0 : α), (1 : α)⟩
-            else
-              if t677 = (0 : α) then
-                ⟨t3092, t3097, t3095, (0 : α), t3095, t3092, t3097, (0 : α), t3097, t3095, t3092, (0 : α), (0 : α), (0 : α), (0 : α), (1 : α)⟩
-              else
-                ⟨((1 : α) - ((2 : α) * (t3249 + t3263))), ((2 : α) * (t3268 + t3267)), ((2 : α) * (t3258 - t3257)), (0 : α), ((2 : α) * (t3268 - t3267)), ((1 : α) - ((2 : α) * (t3263 + t3248))), ((2 : α) * (t3254 + t3253)), (0 : α), ((2 : α) * (t3258 + t3257)), ((2 : α) * (t3254 - t3253)), ((1 : α) - ((2 : α) * (t3249 + t3248))), (0 : α), (0 : α), (0 : α), (0 : α), (1 : α)⟩
-  else
-    if t559 = (0 : α) then
-      if (0 : α) ≤ t896 then
-        if t900 = (0 : α) then
-          ⟨t3307, t3304, t3302, (0 : α), t3300, t3296, t3292, (0 : α), t3290, t3286, t3282, (0 : α), (0 : α), (0 : α), (0 : α), (1 : α)⟩
-        else
-          ⟨((1 : α) - ((2 : α) * (t3309 + t3323))), ((2 : α) * (t3328 + t3327)), ((2 : α) * (t3318 - t3317)), (0 : α), ((2 : α) * (t3328 - t3327)), ((1 : α) - ((2 : α) * (t3323 + t3308))), ((2 : α) * (t3314 + t3313)), (0 : α), ((2 : α) * (t3318 + t3317)), ((2 : α) * (t3314 - t3313)), ((1 : α) - ((2 : α) * (t3309 + t3308))), (0 : α), (0 : α), (0 : α), (0 : α), (1 : α)⟩
-      else
-        if t574 < t925 then
-          if t900 = (0 : α) then
-            if t562 = (0 : α) then
-              if t928 ≤ t927 then
-                if t928 ≤ t926 then
-                  if t933 = (0 : α) then
-                    ⟨t2982, t2981, t2983, (0 : α), t2983, t2982, t2981, (0 : α), t2981, t2983, t2982, (0 : α), (0 : α), (0 : α), (0 : α), (1 : α)⟩
-                  else
-                    ⟨t3367, t3364, t3362, (0 : α), t3360, t3356, t3352, (0 : α), t3350, t3346, t3342, (0 : α), (0 : α), (0 : α), (0 : α), (1 : α)⟩
-                else
-                  if t927 ≤ t926 then
-                    if t940 = (0 : α) then
-                      ⟨t2982, t2981, t2983, (0 : α), t2983, t2982, t2981, (0 : α), t2981, t2983, t2982, (0 : α), (0 : α), (0 : α), (0 : α), (1 : α)⟩
-                    else
-                      ⟨t3397, t3394, t3392, (0 : α), t3390, t3386, t3382, (0 : α), t3380, t3376, t3372, (0 : α), (0 : α), (0 : α), (0 : α), (1 : α)⟩
-                  else
-                    if t946 = (0 : α) then
-                      ⟨t2982, t2981, t2983, (0 : α), t2983, t2982, t2981, (0 : α), t2981, t2983, t2982, (0 : α), (0 : α), (0 : α), (0 : α), (1 : α)⟩
-                    else
-                      ⟨t3427, t3424, t3422, (0 : α), t3420, t3416, t3412, (0 : α), t3410, t3406, t3402, (0 : α), (0 : α), (0 : α), (0 : α), (1 : α)⟩
-              else
-                if t927 ≤ t926 then
-                  if t940 = (0 : α) then
-                    ⟨t2982, t2981, t2983, (0 : α), t2983, t2982, t2981, (0 : α), t2981, t2983, t2982, (0 : α), (0 : α), (0 : α), (0 : α), (1 : α)⟩
-                  else
-                    ⟨t3397, t3394, t3392, (0 : α), t3390, t3386, t3382, (0 : α), t3380, t3376, t3372, (0 : α), (0 : α), (0 : α), (0 : α), (1 : α)⟩
-                else
-                  if t946 = (0 : α) then
-                    ⟨t2982, t2981, t2983, (0 : α), t2983, t2982, t2981, (0 : α), t2981, t2983, t2982, (0 : α), (0 : α), (0 : α), (0 : α), (1 : α)⟩
-                  else
-                    ⟨t3427, t3424, t3422, (0 : α), t3420, t3416, t3412, (0 : α), t3410, t3406, t3402, (0 : α), (0 : α), (0 : α), (0 : α), (1 : α)⟩
-            else
-              if t564 = (0 : α) then
-                ⟨t3457, t3454, t3452, (0 : α), t3450, t3446, t3442, (0 : α), t3440, t3436, t3432, (0 : α), (0 : α), (0 : α), (0 : α), (1 : α)⟩
-              else
-                ⟨t3487, t3484, t3482, (0 : α), t3480, t3476, t3472, (0 : α), t3470, t3466, t3462, (0 : α), (0 : α), (0 : α), (0 : α), (1 : α)⟩
-          else
-            if t994 = (0 : α) then
-              if t928 ≤ t927 then
-                if t928 ≤ t926 then
-                  if t933 = (0 : α) then
-                    ⟨t2982, t2981, t2983, (0 : α), t2983, t2982, t2981, (0 : α), t2981, t2983, t2982, (0 : α), (0 : α), (0 : α), (0 : α), (1 : α)⟩
-                  else
-                    ⟨t3367, t3364, t3362, (0 : α), t3360, t3356, t3352, (0 : α), t3350, t3346, t3342, (0 : α), (0 : α), (0 : α), (0 : α), (1 : α)⟩
-                else
-                  if t927 ≤ t926 then
-                    if t940 = (0 : α) then
-                      ⟨t2982, t2981, t2983, (0 : α), t2983, t2982, t2981, (0 : α), t2981, t2983, t2982, (0 : α), (0 : α), (0 : α), (0 : α), (1 : α)⟩
-                    else
-                      ⟨t3397, t3394, t3392, (0 : α), t3390, t3386, t3382, (0 : α), t3380, t3376, t3372, (0 : α), (0 : α), (0 : α), (0 : α), (1 : α)⟩
-                  else
-                    if t946 = (0 : α) then
-                      ⟨t2982, t2981, t2983, (0 : α), t2983, t2982, t2981, (0 : α), t2981, t2983, t2982, (0 : α), (0 : α), (0 : α), (0 : α), (1 : α)⟩
-                    else
-                      ⟨t3427, t3424, t3422, (0 : α), t3420, t3416, t3412, (0 : α), t3410, t3406, t3402, (0 : α), (0 : α), (0 : α), (0 : α), (1 : α)⟩
-              else
-                if t927 ≤ t926 then
-                  if t940 = (0 : α) then
-                    ⟨t2982, t2981, t2983, (0 : α), t2983, t2982, t2981, (0 : α), t2981, t2983, t2982, (0 : α), (0 : α), (0 : α), (0 : α), (1 : α)⟩
-                  else
-                    ⟨t3397, t3394, t3392, (0 : α), t3390, t3386, t3382, (0 : α), t3380, t3376, t3372, (0 : α), (0 : α), (0 : α), (0 : α), (1 : α)⟩
-                else
-                  if t946 = (0 : α) then
-                    ⟨t2982, t2981, t2983, (0 : α), t2983, t2982, t2981, (0 : α), t2981, t2983, t2982, (0 : α), (0 : α), (0 : α), (0 : α), (1 : α)⟩
-                  else
-                    ⟨t3427, t3424, t3422, (0 : α), t3420, t3416, t3412, (0 : α), t3410, t3406, t3402, (0 : α), (0 : α), (0 : α), (0 : α), (1 : α)⟩
-            else
-              if t998 = (0 : α) then
-                if t1002 = (0 : α) then
-                  ⟨((1 : α) - ((2 : α) * (t3489 + t3503))), ((2 : α) * (t3508 + t3507)), ((2 : α) * (t3498 - t3497)), (0 : α), ((2 : α) * (t3508 - t3507)), ((1 : α) - ((2 : α) * (t3503 + t3488))), ((2 : α) * (t3494 + t3493)), (0 : α), ((2 : α) * (t3498 + t3497)), ((2 : α) * (t3494 - t3493)), ((1 : α) - ((2 : α) * (t3489 + t3488))), (0 : α), (0 : α), (0 : α), (0 : α), (1 : α)⟩
-                else
-                  ⟨((1 : α) - ((2 : α) * (t3519 + t3533))), ((2 : α) * (t3538 + t3537)), ((2 : α) * (t3528 - t3527)), (0 : α), ((2 : α) * (t3538 - t3537)), ((1 : α) - ((2 : α) * (t3533 + t3518))), ((2 : α) * (t3524 + t3523)), (0 : α), ((2 : α) * (t3528 + t3527)), ((2 : α) * (t3524 - t3523)), ((1 : α) - ((2 : α) * (t3519 + t3518))), (0 : α), (0 : α), (0 : α), (0 : α), (1 : α)⟩
-              else
-                if t1002 = (0 : α) then
-                  ⟨((1 : α) - ((2 : α) * (t3549 + t3563))), ((2 : α) * (t3568 + t3567)), ((2 : α) * (t3558 - t3557)), (0 : α), ((2 : α) * (t3568 - t3567)), ((1 : α) - ((2 : α) * (t3563 + t3548))), ((2 : α) * (t3554 + t3553)), (0 : α), ((2 : α) * (t3558 + t3557)), ((2 : α) * (t3554 - t3553)), ((1 : α) - ((2 : α) * (t3549 + t3548))), (0 : α), (0 : α), (0 : α), (0 : α), (1 : α)⟩
-                else
-                  ⟨((1 : α) - ((2 : α) * (t3579 + t3593))), ((2 : α) * (t3598 + t3597)), ((2 : α) * (t3588 - t3587)), (0 : α), ((2 : α) * (t3598 - t3597)), ((1 : α) - ((2 : α) * (t3593 + t3578))), ((2 : α) * (t3584 + t3583)), (0 : α), ((2 : α) * (t3588 + t3587)), ((2 : α) * (t3584 - t3583)), ((1 : α) - ((2 : α) * (t3579 + t3578))), (0 : α), (0 : α), (0 : α), (0 : α), (1 : α)⟩
-        else
-          if t562 = (0 : α) then
-            if t928 ≤ t927 then
-              if t928 ≤ t926 then
-                if t933 = (0 : α) then
-                  ⟨t2982, t2981, t2983, (0 : α), t2983, t2982, t2981, (0 : α), t2981, t2983, t2982, (0 : α), (0 : α), (0 : α), (0 : α), (1 : α)⟩
-                else
-                  ⟨t3367, t3364, t3362, (0 : α), t3360, t3356, t3352, (0 : α), t3350, t3346, t3342, (0 : α), (0 : α), (0 : α), (0 : α), (1 : α)⟩
-              else
-                if t927 ≤ t926 then
-                  if t940 = (0 : α) then
-                    ⟨t2982, t2981, t2983, (0 : α), t2983, t2982, t2981, (0 : α), t2981, t2983, t2982, (0 : α), (0 : α), (0 : α), (0 : α), (1 : α)⟩
-                  else
-                    ⟨t3397, t3394, t3392, (0 : α), t3390, t3386, t3382, (0 : α), t3380, t3376, t3372, (0 : α), (0 : α), (0 : α), (0 : α), (1 : α)⟩
-                else
-                  if t946 = (0 : α) then
-                    ⟨t2982, t2981, t2983, (0 : α), t2983, t2982, t2981, (0 : α), t2981, t2983, t2982, (0 : α), (0 : α), (0 : α), (0 : α), (1 : α)⟩
-                  else
-                    ⟨t3427, t3424, t3422, (0 : α), t3420, t3416, t3412, (0 : α), t3410, t3406, t3402, (0 : α), (0 : α), (0 : α), (0 : α), (1 : α)⟩
-            else
-              if t927 ≤ t926 then
-                if t940 = (0 : α) then
-                  ⟨t2982, t2981, t2983, (0 : α), t2983, t2982, t2981, (0 : α), t2981, t2983, t2982, (0 : α), (0 : α), (0 : α), (0 : α), (1 : α)⟩
-                else
-                  ⟨t3397, t3394, t3392, (0 : α), t3390, t3386, t3382, (0 : α), t3380, t3376, t3372, (0 : α), (0 : α), (0 : α), (0 : α), (1 : α)⟩
-              else
-                if t946 = (0 : α) then
-                  ⟨t2982, t2981, t2983, (0 : α), t2983, t2982, t2981, (0 : α), t2981, t2983, t2982, (0 : α), (0 : α), (0 : α), (0 : α), (1 : α)⟩
-                else
-                  ⟨t3427, t3424, t3422, (0 : α), t3420, t3416, t3412, (0 : α), t3410, t3406, t3402, (0 : α), (0 : α), (0 : α), (0 : α), (1 : α)⟩
-          else
-            if t900 = (0 : α) then
-              if t564 = (0 : α) then
-                ⟨t3457, t3454, t3452, (0 : α), t3450, t3446, t3442, (0 : α), t3440, t3436, t3432, (0 : α), (0 : α), (0 : α), (0 : α), (1 : α)⟩
-              else
-                ⟨t3487, t3484, t3482, (0 : α), t3480, t3476, t3472, (0 : α), t3470, t3466, t3462, (0 : α), (0 : α), (0 : α), (0 : α), (1 : α)⟩
-            else
-              if t564 = (0 : α) then
-                ⟨t3637, t3634, t3632, (0 : α), t3630, t3626, t3622, (0 : α), t3620, t3616, t3612, (0 : α), (0 : α), (0 : α), (0 : α), (1 : α)⟩
-              else
-                ⟨((1 : α) - ((2 : α) * (t3639 + t3653))), ((2 : α) * (t3658 + t3657)), ((2 : α) * (t3648 - t3647)), (0 : α), ((2 : α) * (t3658 - t3657)), ((1 : α) - ((2 : α) * (t3653 + t3638))), ((2 : α) * (t3644 + t3643)), (0 : α), ((2 : α) * (t3648 + t3647)), ((2 : α) * (t3644 - t3643)), ((1 : α) - ((2 : α) * (t3639 + t3638))), (0 : α), (0 : α), (0 : α), (0 : α), (1 : α)⟩
-    else
-      if (0 : α) ≤ t1201 then
-        if t1205 = (0 : α) then
-          ⟨t3307, t3304, t3302, (0 : α), t3300, t3296, t3292, (0 : α), t3290, t3286, t3282, (0 : α), (0 : α), (0 : α), (0 : α), (1 : α)⟩
-        else
-          ⟨((1 : α) - ((2 : α) * (t3669 + t3683))), ((2 : α) * (t3688 + t3687)), ((2 : α) * (t3678 - t3677)), (0 : α), ((2 : α) * (t3688 - t3687)), ((1 : α) - ((2 : α) * (t3683 + t3668))), ((2 : α) * (t3674 + t3673)), (0 : α), ((2 : α) * (t3678 + t3677)), ((2 : α) * (t3674 - t3673)), ((1 : α) - ((2 : α) * (t3669 + t3668))), (0 : α), (0 : α), (0 : α), (0 : α), (1 : α)⟩
-      else
-        if t574 < t1227 then
-          if t1205 = (0 : α) then
-            if t562 = (0 : α) then
-              if t928 ≤ t927 then
-                if t928 ≤ t926 then
-                  if t933 = (0 : α) then
-                    ⟨t2982, t2981, t2983, (0 : α), t2983, t2982, t2981, (0 : α), t2981, t2983, t2982, (0 : α), (0 : α), (0 : α), (0 : α), (1 : α)⟩
-                  else
-                    ⟨t3367, t3364, t3362, (0 : α), t3360, t3356, t3352, (0 : α), t3350, t3346, t3342, (0 : α), (0 : α), (0 : α), (0 : α), (1 : α)⟩
-                else
-                  if t927 ≤ t926 then
-                    if t940 = (0 : α) then
-                      ⟨t2982, t2981, t2983, (0 : α), t2983, t2982, t2981, (0 : α), t2981, t2983, t2982, (0 : α), (0 : α), (0 : α), (0 : α), (1 : α)⟩
-                    else
-                      ⟨t3397, t3394, t3392, (0 : α), t3390, t3386, t3382, (0 : α), t3380, t3376, t3372, (0 : α), (0 : α), (0 : α), (0 : α), (1 : α)⟩
-                  else
-                    if t946 = (0 : α) then
-                      ⟨t2982, t2981, t2983, (0 : α), t2983, t2982, t2981, (0 : α), t2981, t2983, t2982, (0 : α), (0 : α), (0 : α), (0 : α), (1 : α)⟩
-                    else
-                      ⟨t3427, t3424, t3422, (0 : α), t3420, t3416, t3412, (0 : α), t3410, t3406, t3402, (0 : α), (0 : α), (0 : α), (0 : α), (1 : α)⟩
-              else
-                if t927 ≤ t926 then
-                  if t940 = (0 : α) then
-                    ⟨t2982, t2981, t2983, (0 : α), t2983, t2982, t2981, (0 : α), t2981, t2983, t2982, (0 : α), (0 : α), (0 : α), (0 : α), (1 : α)⟩
-                  else
-                    ⟨t3397, t3394, t3392, (0 : α), t3390, t3386, t3382, (0 : α), t3380, t3376, t3372, (0 : α), (0 : α), (0 : α), (0 : α), (1 : α)⟩
-                else
-                  if t946 = (0 : α) then
-                    ⟨t2982, t2981, t2983, (0 : α), t2983, t2982, t2981, (0 : α), t2981, t2983, t2982, (0 : α), (0 : α), (0 : α), (0 : α), (1 : α)⟩
-                  else
-                    ⟨t3427, t3424, t3422, (0 : α), t3420, t3416, t3412, (0 : α), t3410, t3406, t3402, (0 : α), (0 : α), (0 : α), (0 : α), (1 : α)⟩
-            else
-              if t900 = (0 : α) then
-                if t677 = (0 : α) then
-                  ⟨t3457, t3454, t3452, (0 : α), t3450, t3446, t3442, (0 : α), t3440, t3436, t3432, (0 : α), (0 : α), (0 : α), (0 : α), (1 : α)⟩
-                else
-                  ⟨t3727, t3724, t3722, (0 : α), t3720, t3716, t3712, (0 : α), t3710, t3706, t3702, (0 : α), (0 : α), (0 : α), (0 : α), (1 : α)⟩
-              else
-                if t677 = (0 : α) then
-                  ⟨t3637, t3634, t3632, (0 : α), t3630, t3626, t3622, (0 : α), t3620, t3616, t3612, (0 : α), (0 : α), (0 : α), (0 : α), (1 : α)⟩
-                else
-                  ⟨t3757, t3754, t3752, (0 : α), t3750, t3746, t3742, (0 : α), t3740, t3736, t3732, (0 : α), (0 : α), (0 : α), (0 : α), (1 : α)⟩
-          else
-            if t1288 = (0 : α) then
-              if t928 ≤ t927 then
-                if t928 ≤ t926 then
-                  if t933 = (0 : α) then
-                    ⟨t2982, t2981, t2983, (0 : α), t2983, t2982, t2981, (0 : α), t2981, t2983, t2982, (0 : α), (0 : α), (0 : α), (0 : α), (1 : α)⟩
-                  else
-                    ⟨t3367, t3364, t3362, (0 : α), t3360, t3356, t3352, (0 : α), t3350, t3346, t3342, (0 : α), (0 : α), (0 : α), (0 : α), (1 : α)⟩
-                else
-                  if t927 ≤ t926 then
-                    if t940 = (0 : α) then
-                      ⟨t2982, t2981, t2983, (0 : α), t2983, t2982, t2981, (0 : α), t2981, t2983, t2982, (0 : α), (0 : α), (0 : α), (0 : α), (1 : α)⟩
-                    else
-                      ⟨t3397, t3394, t3392, (0 : α), t3390, t3386, t3382, (0 : α), t3380, t3376, t3372, (0 : α), (0 : α), (0 : α), (0 : α), (1 : α)⟩
-                  else
-                    if t946 = (0 : α) then
-                      ⟨t2982, t2981, t2983, (0 : α), t2983, t2982, t2981, (0 : α), t2981, t2983, t2982, (0 : α), (0 : α), (0 : α), (0 : α), (1 : α)⟩
-                    else
-                      ⟨t3427, t3424, t3422, (0 : α), t3420, t3416, t3412, (0 : α), t3410, t3406, t3402, (0 : α), (0 : α), (0 : α), (0 : α), (1 : α)⟩
-              else
-                if t927 ≤ t926 then
-                  if t940 = (0 : α) then
-                    ⟨t2982, t2981, t2983, (0 : α), t2983, t2982, t2981, (0 : α), t2981, t2983, t2982, (0 : α), (0 : α), (0 : α), (0 : α), (1 : α)⟩
-                  else
-                    ⟨t3397, t3394, t3392, (0 : α), t3390, t3386, t3382, (0 : α), t3380, t3376, t3372, (0 : α), (0 : α), (0 : α), (0 : α), (1 : α)⟩
-                else
-                  if t946 = (0 : α) then
-                    ⟨t2982, t2981, t2983, (0 : α), t2983, t2982, t2981, (0 : α), t2981, t2983, t2982, (0 : α), (0 : α), (0 : α), (0 : α), (1 : α)⟩
-                  else
-                    ⟨t3427, t3424, t3422, (0 : α), t3420, t3416, t3412, (0 : α), t3410, t3406, t3402, (0 : α), (0 : α), (0 : α), (0 : α), (1 : α)⟩
-            else
-              if t1292 = (0 : α) then
-                if t1296 = (0 : α) then
-                  ⟨((1 : α) - ((2 : α) * (t3759 + t3773))), ((2 : α) * (t3778 + t3777)), ((2 : α) * (t3768 - t3767)), (0 : α), ((2 : α) * (t3778 - t3777)), ((1 : α) - ((2 : α) * (t3773 + t3758))), ((2 : α) * (t3764 + t3763)), (0 : α), ((2 : α) * (t3768 + t3767)), ((2 : α) * (t3764 - t3763)), ((1 : α) - ((2 : α) * (t3759 + t3758))), (0 : α), (0 : α), (0 : α), (0 : α), (1 : α)⟩
-                else
-                  ⟨((1 : α) - ((2 : α) * (t3789 + t3803))), ((2 : α) * (t3808 + t3807)), ((2 : α) * (t3798 - t3797)), (0 : α), ((2 : α) * (t3808 - t3807)), ((1 : α) - ((2 : α) * (t3803 + t3788))), ((2 : α) * (t3794 + t3793)), (0 : α), ((2 : α) * (t3798 + t3797)), ((2 : α) * (t3794 - t3793)), ((1 : α) - ((2 : α) * (t3789 + t3788))), (0 : α), (0 : α), (0 : α), (0 : α), (1 : α)⟩
-              else
-                if t1296 = (0 : α) then
-                  ⟨((1 : α) - ((2 : α) * (t3819 + t3833))), ((2 : α) * (t3838 + t3837)), ((2 : α) * (t3828 - t3827)), (0 : α), ((2 : α) * (t3838 - t3837)), ((1 : α) - ((2 : α) * (t3833 + t3818))), ((2 : α) * (t3824 + t3823)), (0 : α), ((2 : α) * (t3828 + t3827)), ((2 : α) * (t3824 - t3823)), ((1 : α) - ((2 : α) * (t3819 + t3818))), (0 : α), (0 : α), (0 : α), (0 : α), (1 : α)⟩
-                else
-                  ⟨((1 : α) - ((2 : α) * (t3849 + t3863))), ((2 : α) * (t3868 + t3867)), ((2 : α) * (t3858 - t3857)), (0 : α), ((2 : α) * (t3868 - t3867)), ((1 : α) - ((2 : α) * (t3863 + t3848))), ((2 : α) * (t3854 + t3853)), (0 : α), ((2 : α) * (t3858 + t3857)), ((2 : α) * (t3854 - t3853)), ((1 : α) - ((2 : α) * (t3849 + t3848))), (0 : α), (0 : α), (0 : α), (0 : α), (1 : α)⟩
-        else
-          if t562 = (0 : α) then
-            if t928 ≤ t927 then
-              if t928 ≤ t926 then
-                if t933 = (0 : α) then
-                  ⟨t2982, t2981, t2983, (0 : α), t2983, t2982, t2981, (0 : α), t2981, t2983, t2982, (0 : α), (0 : α), (0 : α), (0 : α), (1 : α)⟩
-                else
-                  ⟨t3367, t3364, t3362, (0 : α), t3360, t3356, t3352, (0 : α), t3350, t3346, t3342, (0 : α), (0 : α), (0 : α), (0 : α), (1 : α)⟩
-              else
-                if t927 ≤ t926 then
-                  if t940 = (0 : α) then
-                    ⟨t2982, t2981, t2983, (0 : α), t2983, t2982, t2981, (0 : α), t2981, t2983, t2982, (0 : α), (0 : α), (0 : α), (0 : α), (1 : α)⟩
-                  else
-                    ⟨t3397, t3394, t3392, (0 : α), t3390, t3386, t3382, (0 : α), t3380, t3376, t3372, (0 : α), (0 : α), (0 : α), (0 : α), (1 : α)⟩
-                else
-                  if t946 = (0 : α) then
-                    ⟨t2982, t2981, t2983, (0 : α), t2983, t2982, t2981, (0 : α), t2981, t2983, t2982, (0 : α), (0 : α), (0 : α), (0 : α), (1 : α)⟩
-                  else
-                    ⟨t3427, t3424, t3422, (0 : α), t3420, t3416, t3412, (0 : α), t3410, t3406, t3402, (0 : α), (0 : α), (0 : α), (0 : α), (1 : α)⟩
-            else
-              if t927 ≤ t926 then
-                if t940 = (0 : α) then
-                  ⟨t2982, t2981, t2983, (0 : α), t2983, t2982, t2981, (0 : α), t2981, t2983, t2982, (0 : α), (0 : α), (0 : α), (0 : α), (1 : α)⟩
-                else
-                  ⟨t3397, t3394, t3392, (0 : α), t3390, t3386, t3382, (0 : α), t3380, t3376, t3372, (0 : α), (0 : α), (0 : α), (0 : α), (1 : α)⟩
-              else
-                if t946 = (0 : α) then
-                  ⟨t2982, t2981, t2983, (0 : α), t2983, t2982, t2981, (0 : α), t2981, t2983, t2982, (0 : α), (0 : α), (0 : α), (0 : α), (1 : α)⟩
-                else
-                  ⟨t3427, t3424, t3422, (0 : α), t3420, t3416, t3412, (0 : α), t3410, t3406, t3402, (0 : α), (0 : α), (0 : α), (0 : α), (1 : α)⟩
-          else
-            if t900 = (0 : α) then
-              if t677 = (0 : α) then
-                ⟨t3457, t3454, t3452, (0 : α), t3450, t3446, t3442, (0 : α), t3440, t3436, t3432, (0 : α), (0 : α), (0 : α), (0 : α), (1 : α)⟩
-              else
-                ⟨t3727, t3724, t3722, (0 : α), t3720, t3716, t3712, (0 : α), t3710, t3706, t3702, (0 : α), (0 : α), (0 : α), (0 : α), (1 : α)⟩
-            else
-              if t677 = (0 : α) then
-                ⟨t3637, t3634, t3632, (0 : α), t3630, t3626, t3622, (0 : α), t3620, t3616, t3612, (0 : α), (0 : α), (0 : α), (0 : α), (1 : α)⟩
-              else
-                ⟨t3757, t3754, t3752, (0 : α), t3750, t3746, t3742, (0 : α), t3740, t3736, t3732, (0 : α), (0 : α), (0 : α), (0 : α), (1 : α)⟩
+          ⟨(t2016 * t2059), ⟨t2053, (t2055 * t2059), (t2057 * t2059)⟩⟩
 
 /-- extracted from the C++ template at T = Sym; 2 path(s) -/
 def C10.M44.setAxisAngle {α : Type} [Add α] [Sub α] [Mul α] [Div α] [Neg α] [LT α] [LE α] [DecidableLT α] [DecidableLE α] [DecidableEq α] [OfNat α 0] [OfNat α 1] [OfNat α 2] (tmin : α) (tmax : α) (sqrt : α → α) (sin : α → α) (cos : α → α) (m : M44 α) (axis : V3 α) (angle : α) : (M44 α) :=
@@ -1136,23 +67,23 @@ def C10.M44.setAxisAngle {α : Type} [Add α] [Sub α] [Mul α] [Div α] [Neg α
   let t546 := (axis.z / t544)
   let t547 := (axis.y / t544)
   let t548 := (axis.x / t544)
-  let t3879 := (sin angle)
-  let t3880 := (cos angle)
-  let t3881 := ((1 : α) - t3880)
-  let t3882 := (((0 : α) * (0 : α)) * t3881)
-  let t3883 := (t3882 + t3880)
-  let t3884 := ((0 : α) * t3879)
-  let t3885 := (t3882 + t3884)
-  let t3886 := (t3882 - t3884)
-  let t3890 := (t546 * t3879)
-  let t3892 := ((t548 * t547) * t3881)
-  let t3894 := (t547 * t3879)
-  let t3896 := ((t548 * t546) * t3881)
-  let t3902 := (t548 * t3879)
-  let t3904 := ((t547 * t546) * t3881)
+  let t2064 := (sin angle)
+  let t2065 := (cos angle)
+  let t2066 := ((1 : α) - t2065)
+  let t2068 := (((0 : α) * (0 : α)) * t2066)
+  let t2069 := (t2068 + t2065)
+  let t2070 := ((0 : α) * t2064)
+  let t2071 := (t2068 + t2070)
+  let t2072 := (t2068 - t2070)
+  let t2076 := (t546 * t2064)
+  let t2078 := ((t548 * t547) * t2066)
+  let t2080 := (t547 * t2064)
+  let t2082 := ((t548 * t546) * t2066)
+  let t2088 := (t548 * t2064)
+  let t2090 := ((t547 * t546) * t2066)
   if t544 = (0 : α) then
-    ⟨t3883, t3885, t3886, (0 : α), t3886, t3883, t3885, (0 : α), t3885, t3886, t3883, (0 : α), (0 : α), (0 : α), (0 : α), (1 : α)⟩
+    ⟨t2069, t2071, t2072, (0 : α), t2072, t2069, t2071, (0 : α), t2071, t2072, t2069, (0 : α), (0 : α), (0 : α), (0 : α), (1 : α)⟩
   else
-    ⟨(((t548 * t548) * t3881) + t3880), (t3892 + t3890), (t3896 - t3894), (0 : α), (t3892 - t3890), (((t547 * t547) * t3881) + t3880), (t3904 + t3902), (0 : α), (t3896 + t3894), (t3904 - t3902), (((t546 * t546) * t3881) + t3880), (0 : α), (0 : α), (0 : α), (0 : α), (1 : α)⟩
+    ⟨(((t548 * t548) * t2066) + t2065), (t2078 + t2076), (t2082 - t2080), (0 : α), (t2078 - t2076), (((t547 * t547) * t2066) + t2065), (t2090 + t2088), (0 : α), (t2082 + t2080), (t2090 - t2088), (((t546 * t546) * t2066) + t2065), (0 : α), (0 : α), (0 : α), (0 : α), (1 : α)⟩
 
 end ImathVerif.Gen
